@@ -104,6 +104,13 @@ def queue_pairs():
             out.append(f"put {e1!r} then {e2!r}: queue holds {q.qsize()} items, expected {want}")
             if len(out) > 3:
                 break
+        # the same event for two different watches is two different items
+        q2 = EventQueue()
+        q2.put((e1, "w1"))
+        q2.put((e1, "w2"))
+        if q2.qsize() != 2:
+            out.append(f"put ({e1!r}, w1) then ({e1!r}, w2): queue holds {q2.qsize()} items - the event of the second watch was taken for a repeat")
+            break
     return out
 
 
